@@ -573,6 +573,63 @@ def r9_every_conflicting_folder(ctx):
             r.ok(k2, cfg.loc(body, steps[0]), "every iteration calls auto_merge_folder (or fails)", work=len(live))
 
 
+KIND_WORD = re.compile(r"(?:^|_)(identity|account|device|files|file|folders|folder)(?:_|$)")
+
+
+def _kind_split(name):
+    m = KIND_WORD.search(name)
+    if not m:
+        return None
+    return name[:m.start(1)] + "K" + name[m.end(1):], m.group(1).rstrip("s")
+
+
+def r10_family_kind_consistency(ctx):
+    """Per-kind function families (a stem such as merge_K, force_merge_K,
+    compare_K, auto_merge_K, K_log, K_hard_conflict that exists for all five
+    log kinds) are discovered from the function names of the workspace; inside
+    a member of a family every call to a member of any family has the same
+    kind (merge_device -> device_log, NetworkAccount::merge_files ->
+    inner.merge_files ..). A copied sibling that still calls another kind's
+    function reads or changes the wrong log."""
+    ws = ctx.ws
+    r = ctx.rule("C04-R10", "inside a per-log-kind function every call to a per-log-kind function is of the same kind",
+                 floor=120, kind="K5 sibling families discovered by name, kind agreement of calls")
+    fam = {}
+    for root, fn in ws.fns.items():
+        if fn.crate in idioms.TEST_CRATES or "{closure" in root:
+            continue
+        sp = _kind_split(idioms.last_seg(root))
+        if sp:
+            fam.setdefault(sp[0], set()).add(sp[1])
+    families = {st for st, ks in fam.items() if len(ks) >= 5}
+    r.note("families: %s" % sorted(families))
+    if len(families) < 4:
+        r.anchor_missing("per-kind function families (found %s)" % sorted(families))
+    n = 0
+    for root, fn in sorted(ws.fns.items()):
+        if fn.crate in idioms.TEST_CRATES or "{closure" in root:
+            continue
+        me = _kind_split(idioms.last_seg(root))
+        if not me or me[0] not in families:
+            continue
+        idx = 0
+        for b in fn.bodies:
+            for i, t in idioms.real_calls(b):
+                c = _kind_split(cname(t))
+                if not c or c[0] not in families:
+                    continue
+                n += 1
+                idx += 1
+                k = "%s|%s#%d" % (root, cname(t), idx)
+                if c[1] == me[1]:
+                    r.ok(k, cfg.loc(b, i), "%s -> %s" % (idioms.last_seg(root), cname(t)), work=1)
+                else:
+                    r.violation(k, cfg.loc(b, i), "%s (the %s log) calls %s (the %s log): a sibling copied without renaming works on the wrong log" % (
+                        idioms.last_seg(root), me[1], cname(t), c[1]), work=1)
+    if n < 120:
+        r.anchor_missing("family-to-family calls (found %d, 166 on the pinned tree)" % n)
+
+
 def run(ctx):
     ctx.explanation = (
         "Structural necessary conditions of convergence, decided over the MIR of the sync path: (R1) every function "
@@ -593,3 +650,4 @@ def run(ctx):
     r7_log_kind_arms(ctx)
     r8_per_kind_aggregates(ctx)
     r9_every_conflicting_folder(ctx)
+    r10_family_kind_consistency(ctx)
